@@ -258,9 +258,15 @@ def work(task):
     sample = None
     states = set()
     idx = 0
+    # scripts of 4 commands (thorough) over a core of the alphabet: one command of each kind (all 34^4 scripts x breakpoint sets x programs x
+    # widths are 1.6 billion sessions - that tier did not finish in 80 minutes)
+    core4 = []
+    for i_, c_ in enumerate(cmds):
+        if (c_[1], c_[2][0] if isinstance(c_[2], tuple) else None) not in {(cmds[j][1], cmds[j][2][0] if isinstance(cmds[j][2], tuple) else None) for j in core4}:
+            core4.append(i_)
     for bset in bsets:
         for L in range(0, maxlen + 1):
-            for script in itertools.product(range(len(cmds)), repeat=L):
+            for script in itertools.product(range(len(cmds)) if L < 4 else core4, repeat=L):
                 idx += 1
                 if idx % nparts != part:
                     continue
